@@ -37,16 +37,24 @@ SHORT = {R2: "Radix2", MR: "MixedRadix", GEN: "General"}
 
 # ---- normal form of reconstructed expressions ------------------------------------------------------------
 
+def _nsel(fs):
+    return tuple((f[0], norm(f[1])) + tuple(f[2:]) if isinstance(f, tuple) and f and f[0] == "idx" else f for f in fs)
+
+
 def norm(t):
     """semantic normal form: one()/ONE -> 1, from(x) -> x, inverse(x) -> ('inv', x), pow(x, [n]) -> ('pow', x, n),
     casts and `as` are already transparent; overflow-checked operators are the plain ones"""
-    if not isinstance(t, tuple):
+    if not isinstance(t, tuple) or not t:
         return t
     h = t[0]
     if h == "const":
         return 1 if t[1] in ("ONE",) else (0 if t[1] == "ZERO" else t[1])
+    if h in ("arg", "phi"):
+        return (h, t[1], _nsel(t[2]))
+    if h in ("iter", "iter="):
+        return (h, norm(t[1]), norm(t[2]))
     if h == "call":
-        name, args, fields = t[1], tuple(norm(a) for a in t[2]), t[3]
+        name, args, fields = t[1], tuple(norm(a) for a in t[2]), _nsel(t[3])
         if fields:
             return ("call", name, args, fields)
         if name == "one" and not args:
@@ -72,9 +80,9 @@ def norm(t):
         return ("un", t[1], norm(t[2]))
     if h == "proj":
         inner = norm(t[1])
-        if isinstance(t[1], tuple) and t[1][0] == "bin" and "WithOverflow" in t[1][1] and t[2] == ("0",):
-            return inner
-        return ("proj", inner, t[2])
+        if isinstance(t[1], tuple) and t[1][0] == "bin" and "WithOverflow" in t[1][1] and t[2][:1] == ("0",):
+            return inner if len(t[2]) == 1 else ("proj", inner, _nsel(t[2][1:]))
+        return ("proj", inner, _nsel(t[2]))
     return t
 
 
@@ -95,7 +103,11 @@ def show(t):
     if h == "pow":
         return "pow(%s, %s)" % (show(t[1]), show(t[2]))
     if h == "call":
-        return "%s(%s)%s" % (t[1], ", ".join(show(a) for a in t[2]), "".join("." + f for f in (t[3] if len(t) > 3 else ())))
+        return "%s(%s)%s" % (t[1], ", ".join(show(a) for a in t[2]), _ssel(t[3] if len(t) > 3 else ()))
+    if h in ("arg", "phi"):
+        return "%s%d%s" % (h, t[1], _ssel(t[2]))
+    if h in ("iter", "iter="):
+        return "i<%s..%s%s>" % (show(t[1]), "=" if h == "iter=" else "", show(t[2]))
     if h == "agg":
         return "%s{%s}" % (t[1], ", ".join(show(a) for a in t[2]))
     if h == "bin":
@@ -103,8 +115,22 @@ def show(t):
     if h == "un":
         return "%s(%s)" % (t[1], show(t[2]))
     if h == "proj":
-        return "%s%s" % (show(t[1]), "".join("." + f for f in t[2]))
+        return "%s%s" % (show(t[1]), _ssel(t[2]))
     return DF.show(t)
+
+
+def _ssel(fs):
+    out = ""
+    for f in fs:
+        if isinstance(f, str):
+            out += "." + f
+        elif isinstance(f, tuple) and f and f[0] == "idx":
+            out += "[%s]" % show(f[1])
+        elif isinstance(f, tuple) and f and f[0] == "cidx":
+            out += "[%s%d]" % ("-" if f[2] else "", f[1])
+        else:
+            out += "[%s]" % (f,)
+    return out
 
 
 def A(n, *fields):
